@@ -741,6 +741,9 @@ class PteraTransformer(NodeTransformer):
             x: int = _ptera_interact('x', int)
         """
         value = node.value and self.visit(node.value)
+        if value is None and not isinstance(node.target, ast.Name):
+            # 'obj.attr: T' or 'obj[k]: T' without a value stores nothing
+            return node
         if (
             value is None
             and isinstance(node.target, ast.Name)
